@@ -20,6 +20,43 @@ using namespace sqf::types;
 
 namespace
 {
+    // Keys are captured by value: arrays and hashmaps used as (part of) a key are
+    // copied, so that a later change of the original neither loses nor changes the entry.
+    value copy_key(value::cref key)
+    {
+        if (key.is<t_array>())
+        {
+            std::vector<value> copy;
+            for (auto& it : key.data<d_array>()->value())
+            {
+                copy.push_back(copy_key(it));
+            }
+            return std::make_shared<d_array>(copy);
+        }
+        if (key.is<t_hashmap>())
+        {
+            std::unordered_map<value, value> copy;
+            for (auto& it : key.data<d_hashmap>()->map())
+            {
+                copy.emplace(it.first, copy_key(it.second));
+            }
+            return std::make_shared<d_hashmap>(copy);
+        }
+        return key;
+    }
+    // map[key] = value with the key captured by value
+    void assign(std::unordered_map<value, value>& map, value::cref key, value::cref val)
+    {
+        auto res = map.find(key);
+        if (res != map.end())
+        {
+            res->second = val;
+        }
+        else
+        {
+            map.emplace(copy_key(key), val);
+        }
+    }
     value createhashmap_(runtime& runtime)
     {
         return std::make_shared<d_hashmap>();
@@ -39,7 +76,7 @@ namespace
                     auto& key = subArr->at(0);
                     auto& value = subArr->at(1);
                     // ToDo: Check key-type matches
-                    hashmap[key] = value;
+                    assign(hashmap, key, value);
                 }
                 else
                 {
@@ -70,7 +107,7 @@ namespace
             auto& key = arr->at(0);
             auto& value = arr->at(1);
             // ToDo: Check key-type matches
-            data->map()[key] = value;
+            assign(data->map(), key, value);
         }
         else
         {
@@ -127,7 +164,7 @@ namespace
         auto data = right.data<d_hashmap>();
         for (auto& it : data->map())
         {
-            keys.push_back(it.first);
+            keys.push_back(copy_key(it.first));
         }
         return std::make_shared<d_array>(keys);
     }
